@@ -24,10 +24,10 @@ ORACLES = [("C01 soundness oracle (value in [lower,upper], lower<=upper, known r
 def run(ctx, proof):
     if ctx.quick:
         plan = [(2, 3, "all"), (3, 6, "all"), (4, 4, 12), (5, 2, 6), (6, 1, 2)]
-        hplan = [(3, 30, 12), (4, 20, 16), (5, 6, 16)]
+        hplan = [(3, 30, 12), (4, 20, 16), (5, 6, 16), (9, 1, 8)]
     else:
         plan = [(2, 10, "all"), (3, 40, "all"), (4, 3, "all"), (4, 30, 40), (5, 20, 30), (6, 6, 10)]
-        hplan = [(3, 300, 30), (4, 200, 30), (5, 60, 30)]
+        hplan = [(3, 300, 30), (4, 200, 30), (5, 60, 30), (9, 4, 12), (10, 1, 8)]
     cases = campaign.make_cases(ctx, COMPS, "sa", plan)
     mism = campaign.run_cases(ctx, cases, ORACLES)
     mism += campaign.run_histories(ctx, COMPS, "sa", hplan, ORACLES)
